@@ -66,7 +66,7 @@ func reserve(n int) []byte {
 func u64s(v ...uint64) []uint64 { return v }
 
 func main() {
-	ctx := gal.New("C14", header, 400)
+	ctx := gal.New("C14", header, 120)
 	repo := os.Getenv("VERIF_REPO")
 	if repo == "" {
 		repo = "/repo"
@@ -253,13 +253,28 @@ type layoutCase struct {
 	top   uint64 // offset that is mapped to 4 GiB (end of the BIOS region / COREBOOT area); 0 = none
 	kind  string
 	atEnd bool // top == len(img): "address = 4 GiB - image size + offset" applies
+	// the only BIOS region fiano finds when the bytes are parsed as a BIOSImage: offset and
+	// length (hasBIOS=false: the image does not parse)
+	hasBIOS          bool
+	biosOff, biosLen uint64
 }
 
 func calcOffsets(ctx *gal.Ctx, fake, galago []byte) {
 	rng := ctx.Rng
 	var ls []layoutCase
 	add := func(name string, img []byte, lit string, top uint64, kind string) {
-		ls = append(ls, layoutCase{name, img, lit, top, kind, top == uint64(len(img))})
+		l := layoutCase{name: name, img: img, lit: lit, top: top, kind: kind, atEnd: top == uint64(len(img))}
+		switch kind {
+		case "full-flash":
+			l.hasBIOS, l.biosLen = true, uint64(len(fake))
+			if len(img) > len(galago) {
+				l.biosLen = uint64(len(galago))
+			}
+			l.biosOff = top - l.biosLen
+		case "bios-only", "coreboot": // no descriptor: the whole file is taken as the BIOS region
+			l.hasBIOS, l.biosLen = true, uint64(len(img))
+		}
+		ls = append(ls, l)
 	}
 	add("fake (bare BIOS region)", fake, "LBiosOnly", uint64(len(fake)), "bios-only")
 	add("GALAGOPRO3 (bare BIOS region)", galago, "LBiosOnly", uint64(len(galago)), "bios-only")
@@ -343,6 +358,7 @@ func calcOffsets(ctx *gal.Ctx, fake, galago []byte) {
 				}
 			}
 		}
+		biosRegionVariants(ctx, l)
 		if len(d9) > 0 {
 			ctx.OracleFailKnown(firstIdx, findD9, fmt.Sprintf("%d address(es): %s", len(d9), d9[0]), "pkg/tools/ifd.go:CalcImageOffset (bare BIOS region branch)",
 				map[string]interface{}{"image": l.name, "size": size, "examples": head(d9, 4)})
@@ -352,6 +368,87 @@ func calcOffsets(ctx *gal.Ctx, fake, galago []byte) {
 	got, err := tools.CalcImageOffset(fake, 0xfffffff0)
 	ctx.Probe(findD9, err == nil && got == 0x10 && len(fake) == 0x10000,
 		fmt.Sprintf("tools.CalcImageOffset(fake_intel_firmware.fd (64 KiB, bare BIOS region), 0xfffffff0) = %#x, err=%v; the byte is at offset 0xfff0", got, err))
+}
+
+// ResolveBIOSRegionOffset / UnresolveBIOSRegionOffset on a real BIOSImage artifact
+func biosRegionVariants(ctx *gal.Ctx, l layoutCase) {
+	rng := ctx.Rng
+	mapper := biosimage.PhysMemMapper{}
+	site := "pkg/bootflow/systemartifacts/biosimage/phys_mem_mapper.go"
+	arts := []types.SystemArtifact{biosimage.New(l.img)}
+	if l.kind == "none" {
+		arts = append(arts, sizedArtifact{0x10000}) // not a BIOSImage at all
+	}
+	for _, art := range arts {
+		bios := "None"
+		if _, ok := art.(*biosimage.BIOSImage); ok && l.hasBIOS {
+			bios = "(Some " + gal.U(l.biosLen) + ")"
+		}
+		base := fourGiB - l.biosLen
+		offs := u64s(0, 1, l.biosLen-1, l.biosLen, rng.Uint64())
+		for i := 0; i < 3 && l.biosLen > 0; i++ {
+			offs = append(offs, rng.Uint64()%l.biosLen)
+		}
+		if len(l.img) > 1<<20 {
+			offs = offs[:3]
+		}
+		for _, off := range offs {
+			addr := base + off
+			ln := uint64(1 + rng.Intn(256))
+			for _, unres := range []bool{false, true} {
+				in := pkgbytes.Ranges{{Offset: addr, Length: ln}}
+				if unres {
+					in = pkgbytes.Ranges{{Offset: off, Length: ln}}
+				}
+				if rng.Intn(3) == 0 {
+					in = append(in, pkgbytes.Range{Offset: rng.Uint64(), Length: uint64(rng.Intn(100))})
+				}
+				var out pkgbytes.Ranges
+				var err error
+				p, msg := gal.Recover(func() {
+					if unres {
+						out, err = mapper.UnresolveBIOSRegionOffset(art, append(pkgbytes.Ranges(nil), in...)...)
+					} else {
+						out, err = mapper.ResolveBIOSRegionOffset(art, append(pkgbytes.Ranges(nil), in...)...)
+					}
+				})
+				d := map[string]interface{}{"op": "PhysMemMapper.(Un)ResolveBIOSRegionOffset", "unresolve": unres, "image": l.name, "ranges": in, "bios_region": []uint64{l.biosOff, l.biosLen}}
+				idx := ctx.Add("pmm-bios", fmt.Sprintf("CPmmBios %s %s %s %s", gal.Bool(unres), bios, rangesLit(in), obsRanges(out, err, p)), d, off < l.biosLen)
+				switch {
+				case p:
+					ctx.OracleFail(idx, "BIOS-region mapper panicked: "+msg, site, d)
+				case bios == "None":
+					if err != nil {
+						ctx.OracleOK()
+					} else {
+						ctx.OracleFail(idx, "BIOS-region mapper succeeded without a BIOS region", site, d)
+					}
+				case err != nil || len(out) != len(in):
+					ctx.OracleFail(idx, fmt.Sprintf("BIOS-region mapper failed on an image with one BIOS region: %v", err), site, d)
+				case off < l.biosLen:
+					// the BIOS region ends at 4 GiB: offset inside the region <-> address
+					want := off
+					if unres {
+						want = addr
+					}
+					if out[0].Offset != want || out[0].Length != ln {
+						ctx.OracleFail(idx, fmt.Sprintf("BIOS-region mapper: %#x, expected %#x (region of %#x bytes ending at 4GiB)", out[0].Offset, want, l.biosLen), site, d)
+						break
+					}
+					ctx.OracleOK()
+					// coherence with the full-image mapper when the region ends the file
+					if !unres && l.atEnd {
+						full := mapper.ResolveFullImageOffset(art, in[0])
+						if full[0].Offset != l.biosOff+out[0].Offset {
+							ctx.OracleFail(idx, fmt.Sprintf("full-image offset %#x != BIOS region offset %#x + offset in region %#x", full[0].Offset, l.biosOff, out[0].Offset), site, d)
+						} else {
+							ctx.OracleOK()
+						}
+					}
+				}
+			}
+		}
+	}
 }
 
 // ------------------------------------------------------------------ Part C
@@ -416,9 +513,11 @@ func imagesPart(ctx *gal.Ctx, fake, galago []byte) {
 			}
 		}
 		reported := r.walker(0, nStop)
-		if i < 3 || i%7 == 0 {
+		if i < 2 || (!im.heavy && i%5 == 0) {
 			r.walker(int64(1<<30), 0)
-			r.walker(-0x1000, 0)
+			if !im.heavy {
+				r.walker(-0x1000, 0)
+			}
 		}
 		if reported != nil {
 			r.selectors(reported)
